@@ -8,9 +8,13 @@ class C13(LinalgCheck):
     rule = ("cases = (matrix state of GenLinalg[Kind=QR]) x (call): qr<MGSR>, qr<MGSRPiv> with vector and matrix permutation (HHR is a static_assert: not offered), tensor and "
             "expression arguments, determinant<DetCompType::QR>, float and double, orders 1..9,16,17,32,33 (thorough adds 10..12,64,65); families: diagonally dominant and their row "
             "permutations, unimodular, Hadamard-block times 2^k column scaling (cond known exactly, up to 2^5 * sqrt-free blocks), orders-1-and-4 Hadamard blocks on which "
-            "Gram-Schmidt is exact; per event TLC decides Upper(R), bijectivity of P, apply_pivot on the integer input, Q R = P A and Q'Q = I exactly when the factors are dyadic, "
+            "Gram-Schmidt is exact, and ill-conditioned H diag(2^k) H on a Sylvester block of order 2..32 (nearly parallel columns, cond_2 = 2^10 / 2^(E-6) / 2^E with "
+            "E = 20..24, cond_inf <= 7e7; the larger two for double only); per event TLC decides Upper(R), bijectivity of P, apply_pivot on the integer input, Q R = P A and Q'Q = I exactly when the factors are dyadic, "
             "and judges ||Q'Q - I|| / (n eps cond), ||Q R - pivoted A|| / (n eps ||A||), |det_QR - prod diag R| / (n eps |prod|); all non-trivial")
-    assumptions = LinalgCheck.assumptions_common + [
+    assumptions = [a for a in LinalgCheck.assumptions_common if "cond_inf(A) > 1e4" not in a] + [
+        "domain of the orthogonality bound (the property's 'moderate limit'): measured cond_inf(A) <= 1e8 in double (eps cond <= 2.2e-8) and <= 1e4 in float; cases above are "
+        "skipped and counted (Linalg!QRInDomain). The bound stays C n eps cond with C = 16 (largest ratio seen on the unchanged tree: 0.3); a Gram-Schmidt variant whose loss "
+        "grows like eps cond^2 exceeds it on the ill-conditioned family (seeded change C13a)",
         "the library pre-pivots ROWS (Q R = P A); the property text says column-pivoted: the judge accepts Q R = P A or Q R = A Pi for the permutation that was returned",
         "determinant<DetCompType::QR> is judged against the product of R's diagonal only (it is |det A| up to rounding: Gram-Schmidt makes diag R positive)",
     ]
